@@ -25,7 +25,7 @@ for d in seeded/benign/B*; do
   id=$(basename $d)
   [ -n "${MATCH:-}" ] && ! echo "$id" | grep -Eq "$MATCH" && continue
   props=$(python3 -c "
-m={'B08':'C08 C17','B14':'C14 C15','B14b':'C14 C15','B15':'C15 C14','B15b':'C15 C14','B15c':'C15 C14','B17':'C17 C08','B17b':'C17 C08','B08b':'C08 C17','B18b':'C18 C19','B19b':'C19 C18','B18':'C18 C19','B19':'C19 C18','B14c':'C14 C15','B17c':'C17 C08','B08c':'C08 C17','B18c':'C18 C19','B19c':'C19 C18','B15d':'C15 C14','B14d':'C14 C15','B18d':'C18 C19','B19d':'C19 C18','B17d':'C17 C08','B08d':'C08 C17','B15e':'C15 C14'}
+m={'B08':'C08 C17','B14':'C14 C15','B14b':'C14 C15','B15':'C15 C14','B15b':'C15 C14','B15c':'C15 C14','B17':'C17 C08','B17b':'C17 C08','B08b':'C08 C17','B18b':'C18 C19','B19b':'C19 C18','B18':'C18 C19','B19':'C19 C18','B14c':'C14 C15','B17c':'C17 C08','B08c':'C08 C17','B18c':'C18 C19','B19c':'C19 C18','B15d':'C15 C14','B14d':'C14 C15','B18d':'C18 C19','B19d':'C19 C18','B17d':'C17 C08','B08d':'C08 C17','B15e':'C15 C14','B19e':'C19 C18','B18e':'C18 C19','B17e':'C17 C08'}
 print(m.get('$id','C08 C14 C15 C17 C18 C19'))")
   for p in $props; do
     res=""
